@@ -24,7 +24,8 @@ def run(cmd, cwd, timeout=3000):
 
 
 def suite_ok(wt):
-    rc, out = run(['go', 'test', '-json', '-vet=off', '-count=1', '-timeout', '25m', './...'], wt)
+    # a private network namespace: the suite starts a test server on port 1234, which concurrent runs on this host also want
+    rc, out = run(['unshare', '-rn', 'sh', '-c', 'ip link set lo up; exec go test -json -vet=off -count=1 -timeout 25m ./...'], wt)
     base = json.load(open('/root/.vp/BASELINE.json'))
     want = set(base['stable_pass'])
     res = {}
